@@ -20,6 +20,18 @@
        A n/d ...           (D lines of d entries: initial loading)     an exact Gauss-Jordan elimination whose
        X n/d ...           (N lines of D entries: samples)             contract M * R = I is re-checked on every call
        -> N lines "ROW n/d ..." and "ORACLE calls c bad b singular s"
+     LOGD global N nu k T             the same on the SAMPLE IDS the distance callback received (Spe_Spec.spe_log_check_des)
+       R id id id          (the id designated by every position of the range handed to embed)
+       NB ...              (N lines, only when global = 0)
+       L perm ; a:b a:b    (T lines: shuffled array of POSITIONS, (id, id) arguments of the distance callback)
+       -> "SPEC ok" | "SPEC fail t"
+     RPD snum sden N D d P            random projection on a range (rp_embed_des): G line, R line (N ids = pool rows),
+                                      P lines "X n/d ..." (pool, row = sample id)   -> N lines "ROW ..."
+     FAD maxiter N D d P              fa_embed_des, fa_epsilon = 0: D lines A, R line, P lines X -> ROW lines + ORACLE line
+     FAT rounds N D d P eps           never-stopping trajectory (fa_observe) with fa_epsilon = eps (n/d):
+                                      per round "T t", N "ROW" lines (X^T A_t), D "IC" lines (invC_t), "Q n/d"; ORACLE line
+     POLAR M count                    shipped polar method on logged std::rand answers (M = RAND_MAX + 1)
+       RS r r r ...        -> count lines "XS x s" (accepted x and radius), "USED m" | "ERR ..."
    every block's answer ends with "END" *)
 open C19_model
 
@@ -59,6 +71,7 @@ let qc_of_string s =
   | [n; d] -> (match z_of_string d with Zpos p -> qc_of (z_of_string n) p | _ -> failwith "bad denominator")
   | _ -> failwith "bad rational"
 let string_of_qc q = dec_of_z (qc_num q) ^ "/" ^ dec_of_pos (qc_den q)
+let string_of_q (q : q) = dec_of_z q.qnum ^ "/" ^ dec_of_pos q.qden
 
 let tokens line = List.filter (fun s -> s <> "") (String.split_on_char ' ' (String.trim line))
 let rec split_semi acc cur = function
@@ -157,6 +170,80 @@ let () =
             (nat_of_int (int_of_string d)) a0 x in
         List.iter (fun r -> print_string ("ROW " ^ String.concat " " (List.map string_of_qc r) ^ "\n")) rows;
         Printf.printf "ORACLE calls %d bad %d singular %d\n" !calls !bad !singular;
+        print_string "END\n"
+      | "LOGD" :: [global; n; nu; k; t] ->
+        let global = (global = "1") and n = int_of_string n and t = int_of_string t in
+        let range = nats (expect "R") in
+        let nbs = read_nbs global n in
+        let log = List.init t (fun _ ->
+            match parts (expect "L") with
+            | [p; ps] -> (nats p, List.map pair_of_string ps)
+            | [p] -> (nats p, [])
+            | _ -> failwith "bad L line") in
+        (match spe_log_check_des range global (nat_of_int n) (nat_of_int (int_of_string nu))
+                 (nat_of_int (int_of_string k)) nbs log with
+         | None -> print_string "SPEC ok\n"
+         | Some i -> Printf.printf "SPEC fail %d\n" (int_of_nat i));
+        print_string "END\n"
+      | "RPD" :: [sn; sd; n; dd; d; p] ->
+        let p = int_of_string p in
+        let s = qc_of_string (sn ^ "/" ^ sd) in
+        let g = List.map qc_of_string (expect "G") in
+        let range = nats (expect "R") in
+        if List.length range <> int_of_string n then failwith "bad range";
+        let x = List.init p (fun _ -> List.map qc_of_string (expect "X")) in
+        (match rp_embed_des_qc s (nat_of_int (int_of_string dd)) (nat_of_int (int_of_string d)) g x range with
+         | Ok rows -> List.iter (fun r -> print_string ("ROW " ^ String.concat " " (List.map string_of_qc r) ^ "\n")) rows
+         | e -> print_err e);
+        print_string "END\n"
+      | "FAD" :: [maxiter; n; dd; d; p] ->
+        let p = int_of_string p and dd = int_of_string dd in
+        let a0 = List.init dd (fun _ -> List.map qc_of_string (expect "A")) in
+        let range = nats (expect "R") in
+        if List.length range <> int_of_string n then failwith "bad range";
+        let x = List.init p (fun _ -> List.map qc_of_string (expect "X")) in
+        let calls = ref 0 and bad = ref 0 and singular = ref 0 in
+        let zero = qc_of Z0 XH in
+        let inv m mat =
+          incr calls;
+          match qc_inverse_opt m mat with
+          | Some r -> if not (inv_contract_b m mat r) then incr bad; r
+          | None -> incr singular; (fun _ _ -> zero) in
+        let rows = fa_embed_des_qc inv (nat_of_int (int_of_string maxiter)) (nat_of_int dd)
+            (nat_of_int (int_of_string d)) a0 x range in
+        List.iter (fun r -> print_string ("ROW " ^ String.concat " " (List.map string_of_qc r) ^ "\n")) rows;
+        Printf.printf "ORACLE calls %d bad %d singular %d\n" !calls !bad !singular;
+        print_string "END\n"
+      | "FAT" :: [rounds; n; dd; d; p; eps] ->
+        let p = int_of_string p and dd = int_of_string dd in
+        let a0 = List.init dd (fun _ -> List.map qc_of_string (expect "A")) in
+        let range = nats (expect "R") in
+        if List.length range <> int_of_string n then failwith "bad range";
+        let x = List.init p (fun _ -> List.map qc_of_string (expect "X")) in
+        let calls = ref 0 and bad = ref 0 and singular = ref 0 in
+        let zero = qc_of Z0 XH in
+        let inv m mat =
+          incr calls;
+          match qc_inverse_opt m mat with
+          | Some r -> if not (inv_contract_b m mat r) then incr bad; r
+          | None -> incr singular; (fun _ _ -> zero) in
+        let obs = fa_observe_qc inv (nat_of_int (int_of_string rounds)) (nat_of_int dd)
+            (nat_of_int (int_of_string d)) (qc_of_string eps) a0 x range in
+        List.iteri (fun t ((rows, ic), q) ->
+            Printf.printf "T %d\n" (t + 1);
+            List.iter (fun r -> print_string ("ROW " ^ String.concat " " (List.map string_of_qc r) ^ "\n")) rows;
+            List.iter (fun r -> print_string ("IC " ^ String.concat " " (List.map string_of_qc r) ^ "\n")) ic;
+            print_string ("Q " ^ string_of_qc q ^ "\n")) obs;
+        Printf.printf "ORACLE calls %d bad %d singular %d\n" !calls !bad !singular;
+        print_string "END\n"
+      | "POLAR" :: [m; count] ->
+        let rs = List.map z_of_string (expect "RS") in
+        let mpos = (match z_of_string m with Zpos q -> q | _ -> failwith "bad M") in
+        (match polar_fill (nat_of_int (List.length rs)) mpos (nat_of_int (int_of_string count)) rs with
+         | Ok (l, rest) ->
+           List.iter (fun (x, s) -> Printf.printf "XS %s %s\n" (string_of_q x) (string_of_q s)) l;
+           Printf.printf "USED %d\n" (List.length rs - List.length rest)
+         | e -> print_err e);
         print_string "END\n"
       | _ -> print_string "BADCMD\nEND\n"
     done
